@@ -165,14 +165,18 @@ PROPERTIES = {
                   'verification, labelled bounded)',
     ),
     'C15': dict(
-        level='other', category='other',
-        explanation='BOUNDED (not proved): contracts of this property are checked at run time on the real code by a '
-                    'systematic enumeration in virtual time / under forced interleavings (scenarios/props/c15.py; bounds '
-                    'in its summary line). The deductive contracts for decorator option forms are not discharged yet.',
-        assumptions=['bounded enumeration only: nothing outside the stated bounds is covered'],
-        not_decided=['everything beyond the bounds'],
-        technique='bounded run-time contract checking on the real code (stand-in for contract-based deductive '
-                  'verification, labelled bounded)',
+        level='proof', category='proof', always_standin=True,
+        explanation='options forms: D(None, **opts) returns partial(D, ...) binding EVERY keyword-only parameter of D '
+                    '(generated from D\'s signature in the AST) for the three decorators; direct forms: the cache store '
+                    'is the caller\'s mapping, buffer_until_timeout builds BufferAsyncCalls(func, timeout=t) whose '
+                    '__init__ stores them and spawns exactly one _waiter task, async_background_batcher\'s wrapper keeps '
+                    'one AsyncBackgroundBatcher per running loop (weak registry, created iff absent, reused on the same '
+                    'loop, independent across loops) constructed with every decorator option, whose __init__ stores each '
+                    'option where the other contracts read it',
+        assumptions=['functools.partial / wraps stubs; WeakKeyDictionary as a map keyed by the loop object',
+                     '"behaves identically ... observed through behaviour": the behavioural comparison of the two forms '
+                     'in virtual time is the bounded stand-in\'s; the proof shows the same configuration is reached'],
+        not_decided=[],
     ),
     'C16': dict(
         level='other', category='other',
